@@ -103,6 +103,42 @@ class SSeq2:
                      fresh(name, z3.ArraySort(INT, z3.ArraySort(INT, esort))))
 
 
+class SRecSeq:
+    """list of tuples of one fixed nested shape whose leaves are integers (identifiers, indices): one array per leaf.
+    `shape` is the nesting: None for a leaf, a tuple of shapes for a tuple."""
+    kind = 'recseq'
+
+    def __init__(self, length, arrs, shape): self.len, self.arrs, self.shape = length, list(arrs), shape
+
+    def leaf(self, j, k): return z3.Select(self.arrs[j], zint(k))
+
+    def item(self, k):
+        it = iter(range(len(self.arrs)))
+        def build(sh):
+            if sh is None: return self.leaf(next(it), k)
+            return Tup([build(x) for x in sh])
+        return build(self.shape)
+
+    @staticmethod
+    def flatten(v):
+        """Tup of ints / Tups -> (leaves, shape)"""
+        if isinstance(v, Tup):
+            leaves, shapes = [], []
+            for x in v.items:
+                l, sh = SRecSeq.flatten(x); leaves += l; shapes.append(sh)
+            return leaves, tuple(shapes)
+        return [zint(v)], None
+
+    def appended(self, v):
+        leaves, sh = SRecSeq.flatten(v)
+        if sh != self.shape: raise Undecided('record of a different shape appended to a list of records')
+        return SRecSeq(self.len + 1, [z3.Store(a, self.len, x) for a, x in zip(self.arrs, leaves)], self.shape)
+
+    @staticmethod
+    def fresh(name, shape, nleaves):
+        return SRecSeq(fresh(name + '.len', INT), [fresh('%s.f%d' % (name, j), z3.ArraySort(INT, INT)) for j in range(nleaves)], shape)
+
+
 class SMat:
     """2-D array with `nrows` rows; row i is (ncols, data[i]) -- same API as SSeq2 with constant lenof"""
     kind = 'mat'
@@ -204,6 +240,7 @@ def fresh_like(v, name):
     if isinstance(v, float): return fresh(name, REAL)
     if isinstance(v, SSeq): return SSeq.fresh(name, v.esort)
     if isinstance(v, SSeq2): return SSeq2.fresh(name, v.arrs.sort().range().range())
+    if isinstance(v, SRecSeq): return SRecSeq.fresh(name, v.shape, len(v.arrs))
     if isinstance(v, SMat): return SMat(v.len, v.ncols, fresh(name, v.data.sort()))   # shape is immutable
     if isinstance(v, SSet): return SSet.fresh(name)
     if isinstance(v, SDict): return SDict.fresh(name, v.val.sort().range())
@@ -623,10 +660,12 @@ class Exec:
                 key = ast.unparse(e)
                 if key in self.c.consts: return self.c.consts[key]
                 raise Undecided('isinstance test %s not declared by the contract' % key)
+            if name in ('any', 'all') and len(e.args) == 1 and isinstance(e.args[0], ast.GeneratorExp) and not e.keywords:
+                return self.ev_quantifier(name, e.args[0], ps, exits)
             args = [self.ev(a, ps, exits) for a in e.args]
             if name == 'len':
                 v = self.deref(ps, args[0])
-                if isinstance(v, (SSeq, SSeq2, SMat)): return v.len
+                if isinstance(v, (SSeq, SSeq2, SMat, SRecSeq)): return v.len
                 if isinstance(v, Tup): return len(v.items)
                 raise Undecided('len of unsupported value at line %d' % e.lineno)
             if name == 'set' and not args: return self.alloc(ps, SSet.empty())
@@ -728,6 +767,8 @@ class Exec:
                 self.write(ps, base, bv.remove(args[0])); return None
             if meth == 'discard':
                 self.write(ps, base, bv.remove(args[0])); return None
+        if isinstance(bv, SRecSeq) and meth == 'append' and len(args) == 1:
+            self.write(ps, base, bv.appended(args[0])); return None
         if isinstance(bv, SSeq2) and meth == 'append' and len(args) == 1:
             row = self.deref(ps, args[0])
             if isinstance(row, SSeq) and row.esort == INT:
@@ -737,6 +778,23 @@ class Exec:
         if isinstance(bv, SSeq2) and meth == 'copy':
             raise Undecided('shallow copy of a nested list at line %d' % e.lineno)
         raise Undecided('method %s on %s at line %d' % (meth, type(bv).__name__, e.lineno))
+
+    def ev_quantifier(self, which, g, ps, exits):
+        """any(cond for target in iterable) / all(...): one generator, no filter, over a list the encoder models -> bounded quantifier"""
+        if len(g.generators) != 1 or g.generators[0].ifs: raise Undecided('%s() over several generators / filters at line %d' % (which, g.lineno))
+        gen = g.generators[0]
+        n, binder = self.iter_spec(gen.iter, ps, exits, g)
+        if n is None: raise Undecided('%s() over an unbounded iterable at line %d' % (which, g.lineno))
+        k = fresh('qk', INT)
+        sub = ps.fork(); sub.pc.append(z3.And(k >= 0, k < n))
+        self.bind(gen.target, binder(k, sub), sub)
+        subexits = []
+        cond = self.ev(g.elt, sub, subexits)
+        if subexits: raise Undecided('%s(): the condition may raise at line %d' % (which, g.lineno))
+        if isinstance(cond, bool): cond = z3.BoolVal(cond)
+        cond = zbool(cond)
+        mk = S.exists if which == 'any' else S.forall
+        return S._b(mk(0, n, lambda j: z3.substitute(cond, (k, zint(j))), name='q' + which))
 
     def ev_ListComp(self, e, ps, exits, nested=False):
         """[elt for target in iterable] (one generator, no filter) -> the mapped sequence.  The element is
@@ -825,7 +883,14 @@ class Exec:
 
     def ev_List(self, e, ps, exits):
         if not e.elts: return self.alloc(ps, SSeq(z3.IntVal(0), z3.K(INT, z3.IntVal(0))))
-        vals = [zint(self.ev(x, ps, exits)) for x in e.elts]
+        raw = [self.ev(x, ps, exits) for x in e.elts]
+        if all(isinstance(x, Tup) for x in raw):
+            # a list of tuples of one shape: a list of records
+            leaves0, sh = SRecSeq.flatten(raw[0])
+            rs = SRecSeq(z3.IntVal(0), [z3.K(INT, z3.IntVal(0)) for _ in leaves0], sh)
+            for x in raw: rs = rs.appended(x)
+            return self.alloc(ps, rs)
+        vals = [zint(x) for x in raw]
         arr = z3.K(vals[0].sort() if False else INT, z3.IntVal(0))
         for i, v in enumerate(vals): arr = z3.Store(arr, i, v)
         return self.alloc(ps, SSeq(z3.IntVal(len(vals)), arr))
@@ -1094,6 +1159,7 @@ class Exec:
         vv = self.deref(ps, v)
         if isinstance(vv, SSeq): return vv.len, (lambda k, p, vv=vv: vv[k])
         if isinstance(vv, SSeq2): return vv.len, (lambda k, p, loc=v.loc: InnerRef(loc, k))
+        if isinstance(vv, SRecSeq): return vv.len, (lambda k, p, vv=vv: vv.item(k))
         if isinstance(vv, SMat): return vv.len, (lambda k, p, vv=vv: self.alloc(p, vv.row(k)))
         raise Undecided('iteration over unsupported value at line %d' % node.lineno)
 
